@@ -532,7 +532,7 @@ func VerifC20Crash(op, n0, limit, stale int) {
 		partial = zzC20ClearRegion(n0, st, en)
 		vrt.Carve("C20-stash-clear-partial-range", partial)
 	}
-	k := vrt.Choice("crash", n0+6) // Add: open, n writes (1 without compaction), close, rename; Clear: open, n writes, close
+	k := vrt.Choice("crash", n0+6) // Add: open, n writes (1 without compaction), close, rename, close; Clear (since 4e59358 through history.tmp like the compaction): open, n writes, close, rename, close
 	steps, crashed := 0, false
 	class := 0
 	if vrt.Symbolic() {
@@ -599,7 +599,7 @@ func VerifC20Crash(op, n0, limit, stale int) {
 		bp, bs := zzC20PrefixOrSuffix(loaded, before)
 		ap, as := zzC20PrefixOrSuffix(loaded, after.forms)
 		vrt.Assert(bp || bs || ap || as, "after a process death the reloaded history is neither a leading nor a trailing part of the list before or after the operation")
-		// History.Clear truncates the file and rewrites it entry by entry
+		// History.Clear truncated the file and rewrote it entry by entry (fixed in 4e59358: history.tmp + rename)
 		vrt.Carve("C20-clear-rewrite-in-place-loses-entries", op == 1 && 1 <= k && k-1 < len(after.forms))
 		vrt.Assert((okB && dB == 0) || (okA && dA == 0), "after a process death the reloaded history is neither the list before nor the list after the operation")
 	}
